@@ -100,17 +100,73 @@ func resumeRequestRule(c *Ctx, rule string) (*ssa.Function, *ssa.Function) {
 	reqDesc := p.Desc(reqArg)
 	reset := map[string]string{"BootstrapContents": "const:false", "BootstrapBookmark": "const:false", "TailEvents": "const:0"}
 
+	// form C: the original request object with its Options replaced by a freshly built message
+	var optLit *ssa.Alloc
+
 	if reqDesc == "free:param#6" {
+		for _, g := range append([]*ssa.Function{recv}, AllClosures(recv)...) {
+			for _, in := range Find(g, StoreToField("WatchRequest", "Options")) {
+				if al, ok := in.(*ssa.Store).Val.(*ssa.Alloc); ok && al.Comment == "complit" {
+					optLit = al
+				}
+			}
+		}
+	}
+
+	// a path on which no bookmark was recorded never reaches the re-Watch (R13.2 decides that), so the
+	// resume stores may sit behind a test of the bookmark
+	noBookmark := FactEdge("nil(*free:var:[]byte)")
+
+	if optLit != nil {
+		c.OK(rule, FuncName(recv)+" :: resume request is the original request object (all fields preserved)", calls[0].Pos(), reqDesc+" with freshly built Options")
+
+		fields := allocFields(optLit)
+
+		var missing, wrong []string
+
+		for k := range initial {
+			if !strings.HasPrefix(k, "WatchOptions.") {
+				continue
+			}
+
+			fld := strings.TrimPrefix(k, "WatchOptions.")
+			v, set := fields[fld]
+
+			if want, isReset := reset[fld]; isReset {
+				if set && p.Desc(v) != want {
+					wrong = append(wrong, fld)
+				}
+
+				continue
+			}
+
+			if !set {
+				missing = append(missing, fld)
+			}
+		}
+
+		sort.Strings(missing)
+		sort.Strings(wrong)
+		c.Check(len(missing) == 0 && len(wrong) == 0, rule, FuncName(recv)+" :: freshly built resume Options carry every selector of the initial request and no one-shot option", optLit.Pos(), "all copied",
+			"resume options drop "+strings.Join(missing, ", ")+" / re-send "+strings.Join(wrong, ", "))
+
+		bm, ok := fields["StartFromBookmark"]
+		c.Check(ok && (Glob("free:*.Bookmark", p.Desc(bm)) || Glob("*var:[]byte", p.Desc(bm))), rule, FuncName(recv)+" :: resume Options start from the last bookmark", optLit.Pos(), "yes", "StartFromBookmark is not the recorded bookmark")
+
+		c.MustCut(rule, "re-Watch ⊣ {Options = resume options}", recv, rewatch, CutSpec{Edges: noBookmark, Nodes: func(in ssa.Instruction) bool {
+			return StoreToField("WatchRequest", "Options")(in) && in.(*ssa.Store).Val == ssa.Value(optLit)
+		}}, 1)
+	} else if reqDesc == "free:param#6" {
 		c.OK(rule, FuncName(recv)+" :: resume request is the original request object (all fields preserved)", calls[0].Pos(), reqDesc)
 
 		for fld, want := range reset {
 			fld, want := fld, want
-			c.MustCut(rule, "re-Watch ⊣ {Options."+fld+" = "+strings.TrimPrefix(want, "const:")+"}", recv, rewatch, CutSpec{Nodes: func(in ssa.Instruction) bool {
+			c.MustCut(rule, "re-Watch ⊣ {Options."+fld+" = "+strings.TrimPrefix(want, "const:")+"}", recv, rewatch, CutSpec{Edges: noBookmark, Nodes: func(in ssa.Instruction) bool {
 				return StoreToField("WatchOptions", fld)(in) && p.Desc(in.(*ssa.Store).Val) == want
 			}}, 1)
 		}
 
-		c.MustCut(rule, "re-Watch ⊣ {Options.StartFromBookmark = lastBookmark}", recv, rewatch, CutSpec{Nodes: func(in ssa.Instruction) bool {
+		c.MustCut(rule, "re-Watch ⊣ {Options.StartFromBookmark = lastBookmark}", recv, rewatch, CutSpec{Edges: noBookmark, Nodes: func(in ssa.Instruction) bool {
 			return StoreToField("WatchOptions", "StartFromBookmark")(in) && Glob("free:*.Bookmark", p.Desc(in.(*ssa.Store).Val)) || StoreToField("WatchOptions", "StartFromBookmark")(in) && Glob("*var:[]byte", p.Desc(in.(*ssa.Store).Val))
 		}}, 1)
 
@@ -169,7 +225,7 @@ func resumeRequestRule(c *Ctx, rule string) (*ssa.Function, *ssa.Function) {
 func runC13(c *Ctx) {
 	p := c.P
 
-	c.Rule("R13.1", "E3", "resume request: bootstrap/tail cleared, StartFromBookmark = last bookmark, every other field of the initial request preserved", 6)
+	c.Rule("R13.1", "E3", "resume request: bootstrap/tail cleared, StartFromBookmark = last bookmark, every other field of the initial request preserved", 4)
 
 	wa, recv := resumeRequestRule(c, "R13.1")
 	if wa == nil || recv == nil {
